@@ -1,6 +1,6 @@
 (* C04 — Gherkin parsing is faithful: structure, text, tags, step types and line numbers.
    Statements only; proofs are in theories/GherkinProofs.v. *)
-From BV Require Import Base UStr GherkinTypes Gherkin GherkinProofs.
+From BV Require Import Base UStr GherkinTypes Gherkin GherkinProofs GherkinRowProofs.
 From BVGen Require Import GherkinTables.
 
 (* In every one of the languages of behave.i18n, every alias of every structural keyword, written as "<alias>: x", is
@@ -67,6 +67,28 @@ Theorem outside_docstrings_only_the_stripped_line_matters :
   action m line = action m line'.
 Proof. exact indentation_is_irrelevant. Qed.
 Print Assumptions outside_docstrings_only_the_stripped_line_matters.
+
+(* doc-strings: the lines between the delimiters are collected without the delimiter's indentation (and without
+   trailing blanks), whatever they look like, and stored with the line number of the opening delimiter *)
+Theorem docstring_lines_are_collected_verbatim :
+  (forall ls m, m_st m = StMultiline -> Forall (doc_line_ok (m_ml_lead m) (m_ml_term m)) ls ->
+     exists m', fold_left feed ls (ROk m) = ROk m' /\ m_st m' = StMultiline /\
+                m_lines m' = rev (map (fun l => rstrip (skipn (m_ml_lead m) l)) ls) ++ m_lines m /\
+                m_ml_lead m' = m_ml_lead m /\ m_ml_term m' = m_ml_term m /\ m_ml_start m' = m_ml_start m /\
+                m_line m' = m_line m + length ls) /\
+  (forall m line, m_st m = StMultiline -> prefixb (m_ml_term m) (strip line) = true ->
+     a_multiline m line =
+     ROk (upd_st (upd_ml (set_last_step m (fun st => mkPStep (ps_kw st) (ps_type st) (ps_name st) (ps_line st)
+                                                            (Some (join [10%N] (rev (m_lines m)), m_ml_start m)) (ps_table st)))
+                         (m_ml_start m) (m_ml_lead m) [] []) StSteps)).
+Proof. split; [exact multiline_collects|exact multiline_closes]. Qed.
+Print Assumptions docstring_lines_are_collected_verbatim.
+
+(* table rows: cells written with escaped pipes and a blank of padding are read back exactly, empty cells included *)
+Theorem table_cells_are_read_back_exactly :
+  forall cells, cells <> [] -> forallb cell_ok cells = true -> row_cells (render_row cells) = cells.
+Proof. exact row_cells_reads_back_the_cells. Qed.
+Print Assumptions table_cells_are_read_back_exactly.
 
 (* non-vacuity: a German document with header, tags over two lines with a comment, a background, an outline with examples,
    a doc-string and a table with an escaped pipe, indentation, blank and comment lines *)
